@@ -124,6 +124,21 @@ CLAIMED = {
    note=TRUST + "Known finding C12-bare-name-voicing listed with a matcher (failing sub-step adds a bare name, an involved name has an "
         "offset outside 0..11, only that note's placement differs); any other deviation is a violation.",
    design="§4 C12"),
+ "C13": dict(
+   text="Specification = the exact bar over Q. Lean: history_inv - after ANY sequence of place / rest / + / remove-last / "
+        "set-item / place-at operations, in any meter, every entry starts at the sum of the lengths before it and the current "
+        "beat equals the total (induction over the operation list); place_spec (accepted iff exact total + 1/v <= length or "
+        "length = 0; accepted appends exactly one entry, refused changes nothing); content_ops_keep_timing and "
+        "setItem_only_that_entry; isFull_spec; setMeter_spec. The implementation's float accounting is modelled IEEE-exactly "
+        "(round-to-nearest-even over Q, validated against CPython on 83k operations) and compared with the exact bar in the "
+        "kernel: float_agrees_on_dyadic_fills (6 meters x 8 power-of-two values, complete fills + first refusal) and "
+        "float_counterexample (the 20th quintuplet sixteenth in 4/4 is refused) = known finding C13-float-exact-fill. Tie A: "
+        "the source expressions of the accounting and the is_full tolerance; Tie B: float model == implementation bit for bit "
+        "on all histories of depth <=3/4, every single/alternating fill-to-capacity, random histories up to 200 steps.",
+   note=TRUST + "Partial: the float bar is tied to the exact bar only on the kernel-evaluated histories and by the oracle; there is "
+        "no general theorem that IEEE addition is exact on dyadic values. Known finding C13-float-exact-fill (matcher: exact "
+        "total + 1/v == length and the implementation refused); an accepted over-fill is still a violation.",
+   design="§4 C13"),
  "C04": dict(
    text="Whole-table kernel evaluation (decide +kernel) of everything the statement says about each of the 30 keys, the 15 "
         "relative couples, the key objects and signature<->key inversion; unbounded theorems for rejections (any string, any "
